@@ -174,7 +174,7 @@ impl Components {
     pub fn available_carriers(&self) -> HashSet<Carrier> {
         self.data
             .iter()
-            .filter(|c| c.is_used() || c.is_generated())
+            .filter(|c| c.is_used() || c.is_generated() || c.is_aux())
             .map(|e| e.carrier())
             .collect()
     }
